@@ -65,7 +65,7 @@ Case == [kind |-> "parse", toks |-> TokTexts(toks), class |-> Cls.class, bal |->
          tree |-> JTree(Cls.tree), occ |-> IF Cls.class = "WF" THEN Occurrences(Cls.tree) ELSE <<>>]
 \* C05, value half: a well-formed sequence is also evaluated (x = 5 initially): the value of a chain is that of its last
 \* element with the effects of the earlier ones applied, a tuple is flat, an absent element is the empty value
-EvalAlphas == {"seq", "seqas", "assign"}
+EvalAlphas == {"seq", "seqas"}
 Ctx0 == HashMapCtx((<<120>> :> VNat(5)), EmptyMap, FALSE)
 EvalCase == LET r == Core("mut", Cls.tree, St(Ctx0, <<>>)) IN
   [kind |-> "eval", check |-> "seq_value", toks |-> TokTexts(toks), ctx |-> CtxJson(Ctx0), level |-> "string", ek |-> "value",
